@@ -1229,6 +1229,10 @@ def run_check(ck, which: str) -> None:  # noqa: C901, PLR0912, PLR0915
     rng = ck.rng
     known_keys = {k["key"] for k in ck._known if k.get("status") == "known"}  # noqa: SLF001
     what = {k["key"]: k["what"] for k in ck._known}  # noqa: SLF001
+    # an earlier op of the same history that hit a site recorded under the sibling property (C01 <-> C06) corrupts the
+    # state; later failures of that history are consequences of that recorded defect
+    sibling = {k["key"]: k["what"] for k in common.load_known()
+               if k.get("property") in ("C01", "C06") and k.get("status") == "known"}
 
     # ---- 1. histories: corpus, random (valid + malformed streams), exhaustive small scope for the containers
     hists: list[list[dict]] = []
@@ -1294,11 +1298,15 @@ def run_check(ck, which: str) -> None:  # noqa: C901, PLR0912, PLR0915
 
     def report(ops, idx, step, hit_step):
         fails = step[which]
-        cands = site_candidates(hit_step["op"], hit_step["outcome"]) if hit_step is not None else []
-        for key in cands:
+        for key in site_candidates(step["op"], step["outcome"]) if hit_step is not None else []:
             if key in known_keys:
                 ck.known_finding(key, what[key])
                 return
+        if hit_step is not None and hit_step is not step:
+            for key in site_candidates(hit_step["op"], hit_step["outcome"]):
+                if key in sibling:
+                    ck.known_finding(key, sibling[key] + " (later failure in a history that hit this site earlier)")
+                    return
         sig = step["op"][0] + ":" + step["outcome"] + ":" + fails[0][:40]
         if sig in reported:
             return
